@@ -14,6 +14,8 @@ import (
 	"sync"
 
 	"github.com/orda-io/orda/client/pkg/errors"
+	ordalog "github.com/orda-io/orda/client/pkg/log"
+	"github.com/sirupsen/logrus"
 	"github.com/orda-io/orda/client/pkg/iface"
 	"github.com/orda-io/orda/client/pkg/model"
 	"github.com/orda-io/orda/client/pkg/orda"
@@ -78,6 +80,9 @@ func Silence() {
 	if f, err := os.OpenFile(os.DevNull, os.O_WRONLY, 0); err == nil {
 		os.Stderr = f
 	}
+	// the package-level logger was bound to the real stderr at init time
+	ordalog.Logger.Logger.SetOutput(io.Discard)
+	ordalog.Logger.Logger.SetLevel(logrus.PanicLevel)
 }
 
 // ---------------------------------------------------------------------------------------------
